@@ -57,6 +57,13 @@ claimed.update({
  "C15": ("B", "explicit-state BFS over encode-operation sequences from cold package state (state = both generator caches via hook, exact key, snapshot/restore successors) with fresh-OS-process observations as oracle; exhaustive post-hoc mutation of every []byte argument",
          "Every operation of a 45-operation alphabet is observed in every reachable cache state (fixpoint) and in all raw sequences up to length 2 (thorough 3) and must equal what a freshly started process returns for the same call; caches must equal reference generators; map-iteration independence is decided structurally; every byte of every slice argument is overwritten after the call and the barcode must not change.", "Trusted: sha256 observation digest; hooks VerifReset/VerifCacheState/VerifRestore; operation alphabet covers every distinct generator degree QR/DataMatrix can request.", "4.C15"),
 })
+
+claimed.update({
+ "C16": ("S", "stateless schedule exploration of the instrumented real code under a hand-written controlled scheduler: DFS over choice sequences with iterative preemption bounding, group-level reduction for cross-call harnesses, exact global-state-key pruning for single-call pipelines; plus a separate free-running -race pass (detector)",
+         "The current /repo sources are mechanically rewritten (go/ast + go/types) so that go statements, channel operations, package sync and every statement of lock-guarded files are scheduling points. S1 explores all interleavings (<= 2, thorough 3 preemptions) of concurrent Encode calls on one generator cache at statement granularity; S2 all pairs (thorough: triples) of top-level QR/DataMatrix/Scale calls from cold package state; S3 every schedule of each goroutine pipeline inside a call (iterateModules, alphanumeric producer incl. all error paths, IterateBytes+splitToBlocks, whole qr.Encode calls). On every complete schedule: no panic, no deadlock, no goroutine left parked, each call's result equals its sequential / fresh-process result, caches equal reference generators. Every reported schedule is replayed twice with identical traces before it is believed.",
+         "Data races on memory the scheduler does not instrument, and weak memory orderings, are outside the family: S4 (free-running -race pass over {mixed, qr, rs} x goroutines {2,8,64} x GOMAXPROCS {1,2,4,16}, fresh process each) complements as a sampling detector and can only add violations. Preemption bounds and the state-key soundness premise (threads of one call interact only through hooked operations) are stated in evidence.",
+         "4.C16"),
+})
 pending_reason = "check not built yet in this round (planned, see DESIGN.md section 4); not claimed until its explorer exists and passes on the unchanged tree"
 
 checks = []
